@@ -263,6 +263,8 @@ class Emit:
             for a in s["args"]:
                 args.append(self.path(a["p"]) if a["k"] == "lst" else self.expr(a))
             vsc.unique(*args)
+        elif k == "uniqv":
+            vsc.unique_vec(*[self.path(p) for p in s["ls"]])
         elif k == "foreach":
             if s.get("of"):
                 lst = getattr(self.bind[s["of"]]["it"], s["l"])       # a list owned by the element of an enclosing foreach
